@@ -52,6 +52,7 @@ type vpFS struct {
 	nodes    map[string]*vpNode
 	order    []string
 	log      []vpCall
+	stored   int    // WriteAt calls that changed the file (a call the backend itself refuses stores nothing)
 	failOp   string // operation that fails when failOn (fault injection)
 	failErr  error
 	readOnlyFail bool
@@ -688,6 +689,7 @@ func (h *vpFile) WriteAt(b []byte, off int64) (int, error) {
 		n.size = end
 	}
 	n.mtime = 1_600_000_100
+	h.fs.stored++
 	return len(b), nil
 }
 
